@@ -74,7 +74,7 @@ fn main() {
     // ckc-rs depends on the `log` facade: the run in the second build profile (and every other
     // cold-start child) is made with a logger installed at Trace level, the primary run without
     // one, so that code guarded by log_enabled!(..) is executed in one of the two configurations
-    if sub.is_some() || cold.map(|k| k % 2 == 1).unwrap_or(false) {
+    if sub.is_some() || cold.map(|k| (k / 16) % 2 == 1).unwrap_or(false) {
         struct Discard;
         impl log::Log for Discard {
             fn enabled(&self, _: &log::Metadata) -> bool {
